@@ -90,6 +90,12 @@ def items(tier):
             out.append((sp, {"rule": "TSLACK", "absence": [0, 2], "auto_abs": aa, "max_time": F.seq_bound(sp) + 10}))
     for sp in F.rule_sensitive_specs() + [F.idle_component_spec(), F.shared_child_spec(), F.float_noise_spec()] + F.three_level_product_specs():
         out.append((sp, {"rule": "TSLACK", "max_time": F.seq_bound(sp) + 8}))
+    for sp in F.float_order_specs() + F.same_name_workplace_specs()[:4] + [F.shared_id_spec(), F.waiting_component_spec()] + F.auto_placement_specs()[:3]:
+        out.append((sp, {"rule": "TSLACK", "max_time": F.seq_bound(sp) + 8}))
+    # a step width other than 1 (pause steps on and off the time grid)
+    for sp, o in list(out)[:: (23 if tier == "quick" else 7)]:
+        for u in (2, 3):
+            out.append((sp, dict(o, unit_time=u, max_time=o["max_time"] * u)))
     for sp in F.fac_specs(tier):
         out.append((sp, {"rule": "TSLACK", "max_time": F.seq_bound(sp) + 8}))
         if tier == "thorough":
